@@ -539,6 +539,8 @@ fn recover(
 
     // The pages replayed above must be durable before the WAL, their only other copy, is
     // discarded.
+    #[cfg(nomt_verif)]
+    crate::verif::io(ht_fd.as_raw_fd(), crate::verif::Op::Fsync, "ht.recover_fsync")?;
     ht_fd.sync_all()?;
 
     // Finally, we collapse the WAL file and fsync.
